@@ -17,6 +17,9 @@ type genFunc func(o *Out, r *Rng, thorough bool)
 
 var generators = map[string]genFunc{}
 
+// ReplayFile: when set, generators that support it re-run the cases of this file.
+var ReplayFile string
+
 func register(name string, f genFunc) { generators[name] = f }
 
 func main() {
@@ -25,6 +28,7 @@ func main() {
 	tier := flag.String("tier", "quick", "quick|thorough")
 	out := flag.String("out", "", "output file (default stdout)")
 	list := flag.Bool("list", false, "list generators")
+	flag.StringVar(&ReplayFile, "replay", "", "file with case lines to re-run instead of generating (generators that support it)")
 	flag.Parse()
 	log.SetOutput(ioutil.Discard)
 	if *list {
